@@ -1,5 +1,5 @@
 """C06: static graph hashes of dataset-wide layers identify the function they key."""
-from .. import suite_ghash
+from .. import suite_ghash, suite_vm
 from ..runner import Violation
 from ..par import pmap
 from .c01 import merge_stats
@@ -12,10 +12,21 @@ RULE = ('families of sub-pipelines (Source or Merge of 1-3 Sources with shared o
         'hashed by the Lean model. distinct_nontrivial = hash groups over all families')
 
 
+def _vm_shard(args):
+    seed, n = args
+    return suite_vm.run_suite(seed, n, max_nodes=12)['stats']
+
+
 def run(tier, seed, res, lean):
     shards = 16 if tier == 'quick' else 64
     per = 12 if tier == 'quick' else 120
     outs = pmap(suite_ghash.run_shard, [(seed * 2741 + i + 29, per) for i in range(shards)])
+    vm = merge_stats(pmap(_vm_shard, [(seed * 7333 + i + 11, 40 if tier == 'quick' else 200) for i in range(shards)]))
+    if vm['static_vs_real_mismatch']:
+        res.violations.append(Violation(
+            'c06-evalG', 'on a plain graph the value returned by the real code is not evalG(input, static graph hash): the theorem '
+            'CM.C06.static_hash_determines_value no longer describes the code',
+            {'suite': 'S-VM', 'theorems': list(lean['theorems']), 'cases': vm['decode_bad'][:2]}, found_input=False))
     stats = merge_stats([o[0] for o in outs])
     problems = [p for o in outs for p in o[1]]
     model_bad = [p for o in outs for p in o[2]]
@@ -28,6 +39,10 @@ def run(tier, seed, res, lean):
         'evaluations': stats['variants'], 'distinct_nontrivial': stats['groups'], 'rule': RULE,
         'programs': stats['variants'], 'disagreements_checked': len(model_bad) + len(problems),
         'samples': [{'kinds': stats['kinds']}], 'distribution': stats,
+        'theorem_instances': {'what': 'call steps of random engine graphs that are plain with all used inputs bound to one value '
+                              '(Graph.plainGB, proved sound): the value returned by the REAL code vs evalG(input, hashGraph) computed by the driver '
+                              '(CM.C06.static_hash_determines_value)',
+                              'checked': vm['static_instances'], 'mismatches': vm['static_vs_real_mismatch']},
     })
 
 
